@@ -171,6 +171,7 @@ type pendingEvent struct {
 
 // flushEvents compares the events of the op just executed with the model's changes.
 func (s *Sim) flushEvents() {
+	s.checkDeliveryLocks()
 	pend := s.pendingEvents
 	s.pendingEvents = nil
 	if len(pend) == 0 || s.Done() {
@@ -188,6 +189,36 @@ func (s *Sim) flushEvents() {
 		if fd := s.compareEvents(o, b, chs); fd != nil {
 			s.Report(fd)
 			return
+		}
+	}
+}
+
+// checkDeliveryLocks judges the lock state at the time each event of the current op was delivered,
+// for whatever listener the world has (C09: the world is locked while removal events are delivered,
+// and only then, given that the harness has no query open while an op runs). It needs no model of
+// the event stream, so it also runs for restricted listeners.
+func (s *Sim) checkDeliveryLocks() {
+	if !s.Cfg.Owned[CatLock] || s.Done() {
+		return
+	}
+	for _, b := range s.Worlds() {
+		if b.Rec == nil {
+			continue
+		}
+		for i := range b.Rec.Cur {
+			g := &b.Rec.Cur[i]
+			removal := g.Evt.EventTypes.Contains(event.EntityRemoved)
+			if removal {
+				s.Flag("lock.removalEvents", 1)
+			}
+			if removal && !g.Locked {
+				s.Report(finding(CatLock, "%s: removal event for %v (event types %06b) delivered with the world unlocked", b.Name, g.Evt.Entity, g.Evt.EventTypes))
+				return
+			}
+			if !removal && (g.Locks > 0 || (g.Locks < 0 && g.Locked)) {
+				s.Report(finding(CatLock, "%s: event for %v (event types %06b) delivered with the world locked although no query is open", b.Name, g.Evt.Entity, g.Evt.EventTypes))
+				return
+			}
 		}
 	}
 }
